@@ -391,3 +391,63 @@ impl Args {
             .unwrap_or(d)
     }
 }
+
+// ---------------------------------------------------------------------------------------------
+// Emergency exit from a fatal signal: the report gathered so far is written out with one more violation
+// (when a monitor declared what an unexpected fault would mean) or as inconclusive.
+// ---------------------------------------------------------------------------------------------
+
+pub struct Emergency {
+    pub report: *mut Report,
+    pub out: Option<String>,
+    pub seed: u64,
+    pub shard: u64,
+    /// (property, signature, detail) to record if a fatal fault happens now; None = inconclusive
+    pub attribution: Option<(String, String, J)>,
+    pub t0: Option<std::time::Instant>,
+}
+
+pub static mut EMERGENCY_STATE: Emergency = Emergency { report: core::ptr::null_mut(), out: None, seed: 0, shard: 0, attribution: None, t0: None };
+
+#[allow(static_mut_refs)]
+pub fn emergency() -> &'static mut Emergency {
+    unsafe { &mut EMERGENCY_STATE }
+}
+
+/// declare what a fatal fault during the following code would mean
+pub fn fault_means(prop: &str, sig: String, detail: J) {
+    emergency().attribution = Some((prop.to_string(), sig, detail));
+}
+pub fn fault_means_nothing() {
+    emergency().attribution = None;
+}
+
+pub fn emergency_exit(sig: i32, addr: u64, rip: u64, bytes: &[u8]) -> ! {
+    let e = emergency();
+    let code;
+    if e.report.is_null() {
+        eprintln!("INCONCLUSIVE fatal signal {} addr={:#x} rip={:#x} before the report existed", sig, addr, rip);
+        unsafe { libc::_exit(2) };
+    }
+    let rep = unsafe { &mut *e.report };
+    let fault = J::obj(vec![("signal", J::I(sig as i64)), ("fault_address", J::hex(addr)), ("rip", J::hex(rip)), ("code_bytes", J::s(format!("{:02x?}", bytes)))]);
+    match e.attribution.take() {
+        Some((prop, sig_s, detail)) => {
+            rep.violation_for(&prop, &sig_s, J::obj(vec![("fault", fault), ("context", detail)]));
+            code = 1;
+        }
+        None => {
+            rep.inconclusive = Some(format!("fatal signal {} at rip={:#x} addr={:#x} bytes={:02x?}", sig, rip, addr, bytes));
+            code = 2;
+        }
+    }
+    let wall = e.t0.map(|t| t.elapsed().as_secs_f64()).unwrap_or(0.0);
+    let js = rep.to_json(e.seed, e.shard, wall).to_string();
+    match &e.out {
+        Some(p) => {
+            let _ = std::fs::write(p, js);
+        }
+        None => println!("{}", js),
+    }
+    unsafe { libc::_exit(code) };
+}
